@@ -31,6 +31,9 @@ pub enum Item {
     Use { text: String, expands: Vec<Ins> },
     /// verbatim source lines that emit nothing (macro definitions)
     Raw(String),
+    /// an instruction the assembler must refuse; `needle` = the offending token as it appears in the line
+    /// ("" = column unknown).  The diagnostic must cite this line.
+    Bad(Ins, String),
 }
 
 #[derive(Clone, Debug)]
@@ -110,6 +113,7 @@ pub struct Rendered {
 }
 
 struct Renderer<'a> {
+    offend: Vec<Value>,
     lines: Vec<String>,
     lay: &'a Layout,
     rng: &'a mut Rng,
@@ -184,6 +188,17 @@ impl<'a> Renderer<'a> {
                     let sp = self.sp();
                     let code = ins.to_src(&sp);
                     let (line, text) = self.code_line(&code);
+                    out.push(json!({"k":"ins","ast":ins.to_json(),"line":line,"text":text,"textb":text.as_bytes()}));
+                }
+                Item::Bad(ins, needle) => {
+                    let sp = self.sp();
+                    let code = ins.to_src(&sp);
+                    let (line, text) = self.code_line(&code);
+                    let col: i64 = if needle.is_empty() { -1 } else {
+                        let ndl = match sp.case { Case::Upper if needle.chars().all(|c| c.is_ascii_alphabetic()) => needle.to_ascii_uppercase(), _ => needle.clone() };
+                        text.find(&ndl).map(|x| x as i64).unwrap_or(-1)
+                    };
+                    self.offend.push(json!({"line":line,"text":text,"col":col}));
                     out.push(json!({"k":"ins","ast":ins.to_json(),"line":line,"text":text,"textb":text.as_bytes()}));
                 }
                 Item::Use { text, expands } => {
@@ -265,7 +280,7 @@ fn data_json(d: &DataItem) -> Value {
 }
 
 pub fn render(p: &Program, lay: &Layout, rng: &mut Rng, n: usize) -> Rendered {
-    let mut r = Renderer { lines: Vec::new(), lay, rng, pending_label: None };
+    let mut r = Renderer { offend: Vec::new(), lines: Vec::new(), lay, rng, pending_label: None };
     let mut data = Vec::new();
     for d in &p.data {
         r.filler();
@@ -281,7 +296,11 @@ pub fn render(p: &Program, lay: &Layout, rng: &mut Rng, n: usize) -> Rendered {
         source.push('\n');
     }
     let stdin: Vec<Value> = p.stdin.iter().map(|s| s.to_json()).collect();
-    Rendered { source, json: json!({"ev":"program","n":n,"data":data,"items":items,"interp":p.interp,"stdin":stdin,"note":p.note}) }
+    let mut pj = json!({"ev":"program","n":n,"data":data,"items":items,"interp":p.interp,"stdin":stdin,"note":p.note});
+    if !r.offend.is_empty() {
+        pj["offend"] = json!(r.offend);
+    }
+    Rendered { source, json: pj }
 }
 
 pub struct RunResult {
